@@ -61,3 +61,129 @@ package validators
 //@ requires g != nil && g.holder != nil && definitions.verbTablesInit()
 //@ ensures iff: (result == nil) == definitions.routeVerb(attribute.Value)
 //@ ensures sev: implies(result != nil, result.Severity == diagnostics.DiagnosticError && result.Code == ite(definitions.knownVerb(attribute.Value), string(diagnostics.DiagFeatureUnsupported), string(diagnostics.DiagAnnotationValueInvalid)))
+
+// ---- link validator (C10): the {names} of the method's @Route against its @Path annotations ----
+// assumed: the cast of the 'name' property (JSON5 value through reflect) is a function of the attribute
+//@ ufunc aliasOK(a annotations.Attribute) bool
+//@ ufunc aliasSet(a annotations.Attribute) bool
+//@ ufunc aliasVal(a annotations.Attribute) string
+//@ func AnnotationLinkValidator.getPathAliasOrDiag trusted
+//@ requires v.receiver != nil && v.receiver.Annotations != nil
+//@ ensures (result1 == nil) == aliasOK(attr)
+//@ ensures implies(result1 == nil, (result0 != nil) == aliasSet(attr))
+//@ ensures implies(result1 == nil && result0 != nil, *result0 == aliasVal(attr))
+//@ ensures implies(result1 != nil, result0 == nil && result1.Severity == diagnostics.DiagnosticError && result1.FilePath == v.receiver.Annotations.fileName)
+//@ spec aliasOrName(a annotations.Attribute) string = ite(aliasSet(a), aliasVal(a), a.Value)
+//@ func AnnotationLinkValidator.getPathAliasOrName props C10,C14
+//@ requires v.receiver != nil && v.receiver.Annotations != nil
+//@ ensures (result1 == nil) == aliasOK(attr)
+//@ ensures implies(result1 == nil, result0 == aliasOrName(attr))
+//@ ensures implies(result1 != nil, result1.Severity == diagnostics.DiagnosticError && result1.FilePath == v.receiver.Annotations.fileName)
+
+//@ func getRangeForUrlParam props C18,C14
+
+// Check 1: every {name} of the route appears once and is the alias (or, without alias, the value) of some @Path
+//@ func AnnotationLinkValidator.validateRoute props C10,C14,C18
+//@ requires v.receiver != nil && v.receiver.Annotations != nil
+//@ ensures aliasDiag: implies(exists(k, 0, len(v.groupedAttributes.path), !aliasOK(v.groupedAttributes.path[k])), len(result) > 0)
+//@ ensures linked: implies(forall(k, 0, len(v.groupedAttributes.path), aliasOK(v.groupedAttributes.path[k])), (len(result) == 0) == forall(i, 0, len(v.urlParams), !exists(j, 0, i, v.urlParams[j] == v.urlParams[i]) && exists(k, 0, len(v.groupedAttributes.path), aliasOrName(v.groupedAttributes.path[k]) == v.urlParams[i])))
+//@ ensures sev: forall(d, 0, len(result), result[d].Severity == diagnostics.DiagnosticError && result[d].FilePath == v.receiver.Annotations.fileName)
+//@ loop 0 invariant 0 <= _n && _n <= len(v.groupedAttributes.path) && len(pathAliases) == _n && fresh(pathAliases) && fresh(diags)
+//@ loop 0 invariant (len(diags) == 0) == forall(k, 0, _n, aliasOK(v.groupedAttributes.path[k]))
+//@ loop 0 invariant forall(k, 0, _n, implies(aliasOK(v.groupedAttributes.path[k]), pathAliases[k] == aliasOrName(v.groupedAttributes.path[k])))
+//@ loop 0 invariant forall(d, 0, len(diags), diags[d].Severity == diagnostics.DiagnosticError && diags[d].FilePath == v.receiver.Annotations.fileName)
+//@ loop 1 invariant 0 <= _n && _n <= len(v.urlParams) && fresh(diags)
+//@ loop 1 invariant forall(x, string, indom(referencedParams, x) == exists(k, 0, len(v.groupedAttributes.path), aliasOrName(v.groupedAttributes.path[k]) == x))
+//@ loop 1 invariant forall(x, string, indom(witnessedUrlParams, x) == exists(j, 0, _n, v.urlParams[j] == x))
+//@ loop 1 invariant (len(diags) == 0) == forall(i, 0, _n, !exists(j, 0, i, v.urlParams[j] == v.urlParams[i]) && exists(k, 0, len(v.groupedAttributes.path), aliasOrName(v.groupedAttributes.path[k]) == v.urlParams[i]))
+//@ loop 1 invariant forall(d, 0, len(diags), diags[d].Severity == diagnostics.DiagnosticError && diags[d].FilePath == v.receiver.Annotations.fileName)
+
+// Check 2: every @Path names a function parameter no other annotation has linked yet, no @Path value and no alias
+// repeats, and an alias is one of the route's {names}
+//@ spec pathAt(v AnnotationLinkValidator, k int) annotations.Attribute = v.groupedAttributes.path[k]
+//@ spec hasAlias(a annotations.Attribute) bool = aliasOK(a) && aliasSet(a) && aliasVal(a) != ""
+// assumed: the suggestion text builder has no effect
+//@ func getContextualAppendedSuggestion trusted
+//@ extern github.com/gopher-fleece/gleece/v2/common.MapKeys
+//@ ensures true
+//@ func AnnotationLinkValidator.validatePathAnnotations props C10,C14,C18
+//@ requires v.receiver != nil && v.receiver.Annotations != nil && v.funcParamNames != nil && seenFuncParams != nil
+//@ modifies elems(seenFuncParams)
+//@ ensures clean: (len(result) == 0) == forall(k, 0, len(v.groupedAttributes.path), indom(v.funcParamNames, pathAt(v, k).Value) && !old(indom(seenFuncParams, pathAt(v, k).Value)) && !exists(j, 0, k, pathAt(v, j).Value == pathAt(v, k).Value) && aliasOK(pathAt(v, k)) && implies(hasAlias(pathAt(v, k)), !exists(j, 0, k, hasAlias(pathAt(v, j)) && aliasVal(pathAt(v, j)) == aliasVal(pathAt(v, k))) && exists(u, 0, len(v.urlParams), v.urlParams[u] == aliasVal(pathAt(v, k)))))
+//@ ensures seenOld: forall(x, string, implies(old(indom(seenFuncParams, x)), indom(seenFuncParams, x)))
+//@ ensures seenNew: forall(j, 0, len(v.groupedAttributes.path), implies(indom(v.funcParamNames, pathAt(v, j).Value), indom(seenFuncParams, pathAt(v, j).Value)))
+//@ ensures seenOnly: forall(x, string, implies(indom(seenFuncParams, x) && !old(indom(seenFuncParams, x)), indom(v.funcParamNames, x) && exists(j, 0, len(v.groupedAttributes.path), pathAt(v, j).Value == x)))
+//@ ensures sev: forall(d, 0, len(result), result[d].Severity == diagnostics.DiagnosticError && result[d].FilePath == v.receiver.Annotations.fileName)
+//@ loop 0 invariant 0 <= _n && _n <= len(v.groupedAttributes.path) && fresh(diags)
+//@ loop 0 invariant forall(x, string, indom(v.funcParamNames, x) == old(indom(v.funcParamNames, x)))
+//@ loop 0 invariant forall(x, string, indom(seenRefValues, x) == exists(j, 0, _n, pathAt(v, j).Value == x))
+//@ loop 0 invariant forall(x, string, indom(seenAliases, x) == exists(j, 0, _n, hasAlias(pathAt(v, j)) && aliasVal(pathAt(v, j)) == x))
+//@ loop 0 invariant forall(x, string, implies(old(indom(seenFuncParams, x)), indom(seenFuncParams, x)))
+//@ loop 0 invariant forall(j, 0, _n, implies(indom(v.funcParamNames, pathAt(v, j).Value), indom(seenFuncParams, pathAt(v, j).Value)))
+//@ loop 0 invariant forall(x, string, implies(indom(seenFuncParams, x) && !old(indom(seenFuncParams, x)), indom(seenRefValues, x)))
+//@ loop 0 invariant forall(x, string, implies(indom(seenFuncParams, x) && !old(indom(seenFuncParams, x)), indom(v.funcParamNames, x)))
+//@ loop 0 invariant implies(len(diags) == 0, forall(k, 0, _n, indom(v.funcParamNames, pathAt(v, k).Value) && !old(indom(seenFuncParams, pathAt(v, k).Value)) && !exists(j, 0, k, pathAt(v, j).Value == pathAt(v, k).Value) && aliasOK(pathAt(v, k)) && implies(hasAlias(pathAt(v, k)), !exists(j, 0, k, hasAlias(pathAt(v, j)) && aliasVal(pathAt(v, j)) == aliasVal(pathAt(v, k))) && exists(u, 0, len(v.urlParams), v.urlParams[u] == aliasVal(pathAt(v, k))))))
+//@ loop 0 invariant implies(len(diags) > 0, exists(k, 0, _n, !(indom(v.funcParamNames, pathAt(v, k).Value) && !old(indom(seenFuncParams, pathAt(v, k).Value)) && !exists(j, 0, k, pathAt(v, j).Value == pathAt(v, k).Value) && aliasOK(pathAt(v, k)) && implies(hasAlias(pathAt(v, k)), !exists(j, 0, k, hasAlias(pathAt(v, j)) && aliasVal(pathAt(v, j)) == aliasVal(pathAt(v, k))) && exists(u, 0, len(v.urlParams), v.urlParams[u] == aliasVal(pathAt(v, k)))))))
+//@ loop 0 invariant forall(d, 0, len(diags), diags[d].Severity == diagnostics.DiagnosticError && diags[d].FilePath == v.receiver.Annotations.fileName)
+
+// The set of parameter names the checks below consult
+//@ func getReceiverParamsNameSet props C10,C14
+//@ requires receiver != nil
+//@ ensures result != nil
+//@ ensures names: forall(x, string, indom(result, x) == exists(i, 0, len(receiver.Params), receiver.Params[i].Name == x))
+
+// Check 3: every @Query/@Header/@Body/@FormField with a value names a function parameter (in-place sort of the
+// classified attributes: a permutation)
+//@ spec nonPathAt(v AnnotationLinkValidator, k int) annotations.Attribute = v.groupedAttributes.nonPathAttributes[k]
+//@ func AnnotationLinkValidator.validateNonPathAnnotations props C10,C14,C18
+//@ requires v.receiver != nil && v.receiver.Annotations != nil && v.funcParamNames != nil && seenFuncParams != nil
+//@ modifies elems(seenFuncParams), elems(v.groupedAttributes.nonPathAttributes)
+// (stated over the attribute list as the function leaves it: the same attributes in sorted order)
+//@ ensures perm: forall(k, 0, len(v.groupedAttributes.nonPathAttributes), exists(j, 0, len(v.groupedAttributes.nonPathAttributes), old(nonPathAt(v, k)) == nonPathAt(v, j))) && forall(k, 0, len(v.groupedAttributes.nonPathAttributes), exists(j, 0, len(v.groupedAttributes.nonPathAttributes), nonPathAt(v, k) == old(nonPathAt(v, j))))
+//@ ensures clean: (len(result) == 0) == forall(k, 0, len(v.groupedAttributes.nonPathAttributes), nonPathAt(v, k).Value == "" || indom(v.funcParamNames, nonPathAt(v, k).Value))
+//@ ensures seenOld: forall(x, string, implies(old(indom(seenFuncParams, x)), indom(seenFuncParams, x)))
+//@ ensures seenNew: forall(k, 0, len(v.groupedAttributes.nonPathAttributes), implies(nonPathAt(v, k).Value != "" && indom(v.funcParamNames, nonPathAt(v, k).Value), indom(seenFuncParams, nonPathAt(v, k).Value)))
+//@ ensures seenOnly: forall(x, string, implies(indom(seenFuncParams, x) && !old(indom(seenFuncParams, x)), indom(v.funcParamNames, x) && exists(k, 0, len(v.groupedAttributes.nonPathAttributes), nonPathAt(v, k).Value == x)))
+//@ ensures sev: forall(d, 0, len(result), result[d].Severity == diagnostics.DiagnosticError && result[d].FilePath == v.receiver.Annotations.fileName)
+//@ loop 0 invariant 0 <= _n && _n <= len(nonPathAttributes) && fresh(diags)
+//@ loop 0 invariant forall(k, 0, len(nonPathAttributes), nonPathAttributes[k] == nonPathAt(v, k))
+//@ loop 0 invariant forall(k, 0, len(nonPathAttributes), exists(j, 0, len(nonPathAttributes), nonPathAt(v, k) == old(nonPathAt(v, j))))
+//@ loop 0 invariant forall(k, 0, len(nonPathAttributes), exists(j, 0, len(nonPathAttributes), old(nonPathAt(v, k)) == nonPathAt(v, j)))
+//@ loop 0 invariant forall(x, string, indom(v.funcParamNames, x) == old(indom(v.funcParamNames, x)))
+//@ loop 0 invariant (len(diags) == 0) == forall(k, 0, _n, nonPathAt(v, k).Value == "" || indom(v.funcParamNames, nonPathAt(v, k).Value))
+//@ loop 0 invariant forall(x, string, implies(old(indom(seenFuncParams, x)), indom(seenFuncParams, x)))
+//@ loop 0 invariant forall(k, 0, _n, implies(nonPathAt(v, k).Value != "" && indom(v.funcParamNames, nonPathAt(v, k).Value), indom(seenFuncParams, nonPathAt(v, k).Value)))
+//@ loop 0 invariant forall(x, string, implies(indom(seenFuncParams, x) && !old(indom(seenFuncParams, x)), indom(v.funcParamNames, x) && exists(k, 0, _n, nonPathAt(v, k).Value == x)))
+//@ loop 0 invariant forall(d, 0, len(diags), diags[d].Severity == diagnostics.DiagnosticError && diags[d].FilePath == v.receiver.Annotations.fileName)
+
+// Check 4: every function parameter that is not a context.Context has been linked by some annotation
+//@ spec isCtxParam(p metadata.FuncParam) bool = p.Type.Name == "Context" && p.Type.PkgPath == "context"
+//@ spec firstNamed(r *metadata.ReceiverMeta, j int) bool = forall(i, 0, j, r.Params[i].Name != r.Params[j].Name)
+//@ func AnnotationLinkValidator.validateAllReferenced props C10,C14,C18
+//@ requires v.receiver != nil && v.receiver.Annotations != nil && v.funcParamNames != nil
+//@ ensures clean: (len(result) == 0) == forall(x, string, implies(indom(v.funcParamNames, x), indom(seenFuncParams, x) || !exists(j, 0, len(v.receiver.Params), v.receiver.Params[j].Name == x) || exists(j, 0, len(v.receiver.Params), v.receiver.Params[j].Name == x && firstNamed(v.receiver, j) && isCtxParam(v.receiver.Params[j]))))
+//@ ensures sev: forall(d, 0, len(result), result[d].Severity == diagnostics.DiagnosticError && result[d].FilePath == v.receiver.Annotations.fileName && result[d].Code == string(diagnostics.DiagLinkerUnreferencedParameter))
+//@ loop 0 invariant 0 <= _n && _n <= len(_s) && fresh(diags)
+//@ loop 0 invariant (len(diags) == 0) == forall(k, 0, _n, indom(seenFuncParams, _s[k]) || !exists(j, 0, len(v.receiver.Params), v.receiver.Params[j].Name == _s[k]) || exists(j, 0, len(v.receiver.Params), v.receiver.Params[j].Name == _s[k] && firstNamed(v.receiver, j) && isCtxParam(v.receiver.Params[j])))
+//@ loop 0 invariant forall(d, 0, len(diags), diags[d].Severity == diagnostics.DiagnosticError && diags[d].FilePath == v.receiver.Annotations.fileName && diags[d].Code == string(diagnostics.DiagLinkerUnreferencedParameter))
+
+// Classification: every @Path, and every @Query/@Header/@Body/@FormField with a non-blank value, reaches the checks
+// above, in source order; the last @Route is the route; a receiver without @Route is refused
+//@ spec isNonPathAttr(a annotations.Attribute) bool = (a.Name == annotations.GleeceAnnotationQuery || a.Name == annotations.GleeceAnnotationHeader || a.Name == annotations.GleeceAnnotationBody || a.Name == annotations.GleeceAnnotationFormField) && strings.TrimSpace(a.Value) != ""
+//@ spec attrAt(r *metadata.ReceiverMeta, k int) annotations.Attribute = r.Annotations.attributes[k]
+//@ func classifyAttributes props C10,C14
+//@ requires receiver != nil && receiver.Annotations != nil
+//@ ensures err: (result1 != nil) == !exists(k, 0, len(receiver.Annotations.attributes), attrAt(receiver, k).Name == annotations.GleeceAnnotationRoute)
+//@ ensures route: forall(k, 0, len(receiver.Annotations.attributes), implies(attrAt(receiver, k).Name == annotations.GleeceAnnotationRoute && !exists(j, k+1, len(receiver.Annotations.attributes), attrAt(receiver, j).Name == annotations.GleeceAnnotationRoute), result0.route == attrAt(receiver, k)))
+//@ ensures pathsAll: forall(k, 0, len(receiver.Annotations.attributes), implies(attrAt(receiver, k).Name == annotations.GleeceAnnotationPath, exists(p, 0, len(result0.path), result0.path[p] == attrAt(receiver, k))))
+//@ ensures pathsOnly: forall(p, 0, len(result0.path), exists(k, 0, len(receiver.Annotations.attributes), attrAt(receiver, k).Name == annotations.GleeceAnnotationPath && result0.path[p] == attrAt(receiver, k)))
+//@ ensures othersAll: forall(k, 0, len(receiver.Annotations.attributes), implies(isNonPathAttr(attrAt(receiver, k)), exists(p, 0, len(result0.nonPathAttributes), result0.nonPathAttributes[p] == attrAt(receiver, k))))
+//@ ensures othersOnly: forall(p, 0, len(result0.nonPathAttributes), exists(k, 0, len(receiver.Annotations.attributes), isNonPathAttr(attrAt(receiver, k)) && result0.nonPathAttributes[p] == attrAt(receiver, k)))
+//@ loop 0 invariant 0 <= _n && _n <= len(_s) && len(_s) == len(receiver.Annotations.attributes) && forall(k, 0, len(_s), _s[k] == attrAt(receiver, k))
+//@ loop 0 invariant fresh(classified.path) && fresh(classified.nonPathAttributes) && fresh(_s) && disjoint(classified.path, _s) && disjoint(classified.nonPathAttributes, _s) && disjoint(classified.path, classified.nonPathAttributes)
+//@ loop 0 invariant routeAttrSeen == exists(k, 0, _n, attrAt(receiver, k).Name == annotations.GleeceAnnotationRoute)
+//@ loop 0 invariant forall(k, 0, _n, implies(attrAt(receiver, k).Name == annotations.GleeceAnnotationRoute && !exists(j, k+1, _n, attrAt(receiver, j).Name == annotations.GleeceAnnotationRoute), classified.route == attrAt(receiver, k)))
+//@ loop 0 invariant forall(k, 0, _n, implies(attrAt(receiver, k).Name == annotations.GleeceAnnotationPath, exists(p, 0, len(classified.path), classified.path[p] == attrAt(receiver, k))))
+//@ loop 0 invariant forall(p, 0, len(classified.path), exists(k, 0, _n, attrAt(receiver, k).Name == annotations.GleeceAnnotationPath && classified.path[p] == attrAt(receiver, k)))
+//@ loop 0 invariant forall(k, 0, _n, implies(isNonPathAttr(attrAt(receiver, k)), exists(p, 0, len(classified.nonPathAttributes), classified.nonPathAttributes[p] == attrAt(receiver, k))))
+//@ loop 0 invariant forall(p, 0, len(classified.nonPathAttributes), exists(k, 0, _n, isNonPathAttr(attrAt(receiver, k)) && classified.nonPathAttributes[p] == attrAt(receiver, k)))
